@@ -97,6 +97,8 @@ def _child(task):
     t0 = time.time()
     try:
         mod = harness_module(prop)
+        if getattr(mod, "RLIMIT", None):
+            core.RLIMIT = mod.RLIMIT
         mode = Mode(mode_d.get("known", ()), mode_d.get("confirm"))
         r = core.explore(_body(mod, inst["fn"], inst["params"], mode), max_paths=caps.get("max_paths", 200000),
                          wall_cap=caps.get("wall_cap"))
